@@ -260,5 +260,5 @@ ASSUMPTIONS = ["jwalk's rayon pool is uncontrolled (runs inside one step); the s
 
 def main(tier):
     n = 600 if tier == "quick" else 30000
-    cap = 300 if tier == "quick" else 7200
+    cap = 300 if tier == "quick" else 1500
     return engine.run_check(PROP, "c15", tier, n, cap, "exploration", RULE, ASSUMPTIONS)
